@@ -339,6 +339,28 @@ def as_seg(kind, v, nc=None):
     return Seg(kind, [v], nc=(v.nc if isinstance(v, Mat) else nc))
 
 
+class RowSel:
+    """Python list of ROW POSITIONS of one frame, built by  L.extend(frame.index[mask_i].to_list())  inside a symbolic loop over i (the
+    frame's index being positional: label = position).  It is kept as the predicate  q in L  <=>  exists i in the loop's domain with its
+    guards: mask_i(q);  that every position occurs at most once (the masks of different iterations are disjoint) is an obligation emitted at
+    the extend.  Consumers: len(L) == 0, iteration (each selected row once, any order: only commutative accumulation is accepted in the body),
+    frame.loc[L, col].unique()."""
+
+    def __init__(self):
+        self.parts = []      # (vars, guard formula, mask closure q -> Bool)
+        self.n = None        # number of rows of the frame
+        self.birth = sym.DEPTH[0]
+
+    def pred(self, q):
+        alts = []
+        for (vars_, guard, mask) in self.parts:
+            ren = [(v, z3.Int(fresh_name('sel!' + v.decl().name()))) for v in vars_]
+            body = z3.And(guard, to_bool(mask(q)))
+            body = z3.substitute(body, *ren) if ren else body
+            alts.append(z3.Exists([b for _, b in ren], body) if ren else body)
+        return z3.Or(*alts) if alts else z3.BoolVal(False)
+
+
 class LoopCtx:
     def __init__(self, var, dom, line):
         self.var, self.dom, self.line = var, dom, line
@@ -658,6 +680,10 @@ class Interp:
         if isinstance(v, ast.Call) and isinstance(v.func, ast.Name) and v.func.id == 'print':
             self.dropped.add('print')
             return
+        if isinstance(v, ast.Call) and isinstance(v.func, ast.Attribute) and v.func.attr == 'extend' and len(v.args) == 1 and not v.keywords \
+                and isinstance(v.func.value, ast.Name) and isinstance(frame['env'].get(v.func.value.id), RowSel):
+            self.rowsel_extend(frame['env'][v.func.value.id], self.ev(v.args[0], frame))
+            return
         if isinstance(v, ast.Call) and isinstance(v.func, ast.Attribute) and v.func.attr == 'append' and len(v.args) == 1 and not v.keywords:
             tgt = v.func.value
             cur = self.ev(tgt, frame)
@@ -667,6 +693,35 @@ class Interp:
                 self.assign(_as_store(tgt), self.seg_append(cur, [item]), frame)
                 return
         self.ev(v, frame)
+
+    def rowsel_extend(self, rs, item):
+        """L.extend(frame.index[mask].to_list()) inside a symbolic loop, see RowSel"""
+        if not isinstance(item, Arr) or item.comp is None:
+            raise Unsupported('list.extend in a symbolic loop with something else than a mask selection of row labels')
+        base, mask = item.comp
+        probe = z3.Int('probe!rowsel')
+        if not (is_z3(lift(base.f(probe))) and lift(base.f(probe)).eq(probe)):
+            raise Unsupported('list.extend of labels of a frame whose index is not positional')
+        inner = self.loops[getattr(rs, 'birth', 0):]
+        if len(inner) != 1:
+            raise Unsupported('list.extend: the list must be built by exactly one symbolic loop')
+        v = inner[0].var
+        guard = self.guard_formula()
+        mf = mask.f
+        n = mask.n
+        if rs.parts and not (z3.is_true(z3.simplify(lift(rs.n) == lift(n)))):
+            raise Unsupported('list.extend with selections from frames of different length')
+        rs.n = n
+        # disjointness of the selections of two different iterations (each row position at most once in the list)
+        v2 = z3.Int(fresh_name('sel!other'))
+        q = z3.Int(fresh_name('sel!q'))
+        g2 = z3.substitute(guard, (v, v2))
+        m1, m2 = to_bool(mf(q)), z3.substitute(to_bool(mf(q)), (v, v2))
+        self.require('list-of-rows:selections of different iterations are disjoint', z3.ForAll([v2, q], z3.Implies(
+            z3.And(guard, g2, v != v2, q >= 0, q < lift(n)), z3.Not(z3.And(m1, m2)))), kind='shape')
+        if rs.parts:
+            raise Unsupported('several extend statements for one list of rows')
+        rs.parts.append(([v], guard, mf))
 
     def st_Pass(self, st, frame):
         pass
@@ -970,6 +1025,11 @@ class Interp:
                 if not isinstance(idx, (Arr, slice, tuple)):
                     self.accumulate(base, idx, rhs if opname == 'Add' else sym.neg(rhs))
                     return
+            if isinstance(base, Mat) and opname in ('Add', 'Sub') and self._outer(base):
+                idx = self.ev_index(t.slice, frame)
+                if isinstance(idx, tuple) and len(idx) == 2 and not any(isinstance(x, (Arr, slice, tuple)) for x in idx):
+                    self.accumulate_mat(base, idx[0], idx[1], rhs if opname == 'Add' else sym.neg(rhs))
+                    return
         new = self.apply_bin(opname, cur, rhs)
         self.assign(t, new, frame)
 
@@ -999,6 +1059,14 @@ class Interp:
             s, k = (a, b) if isinstance(a, str) else (b, a)
             if isinstance(s, str) and len(s) == 1:
                 return RepStr(s, k)
+            # (string of symbolic length) * literal count: that many copies one after the other
+            s2, k2 = (a, b) if isinstance(a, (FnStr, RepStr, Seg)) else (b, a)
+            ck = concrete_int(k2) if not isinstance(k2, (FnStr, RepStr, Seg, str)) else None
+            if isinstance(s2, (FnStr, RepStr)) and ck is not None and 0 <= ck <= 16:
+                out = Seg('str', [])
+                for _ in range(ck):
+                    out.segs.append(s2)
+                return out
             raise Unsupported('str * symbolic')
         if opname == 'Add':
             return self.seg_append(as_seg('str', a), b)
@@ -1102,6 +1170,12 @@ class Interp:
             return o
         if isinstance(idx, Havoc):
             return idx
+        if type(idx).__name__ == 'UniqueVals' and isinstance(o, Arr):
+            # arr[distinct values]: every value must be a valid position
+            from .libmodel import PickedByUnique
+            v = z3.Int(fresh_name('uniq!v'))
+            self.require(f'index:{what}', z3.ForAll([v], z3.Implies(idx.member(v), z3.And(v >= 0, v < lift(o.n)))), kind='index')
+            return PickedByUnique(o, idx)
         if isinstance(o, SymMap):
             hk = o.has_key(idx, self.resolve_bool)
             if hk is False:
@@ -1455,6 +1529,16 @@ class Interp:
         k = self.bounds_check(key, o.n, 'accumulate')
         ent[1].append(dict(kind='acc', cell=('arr', k), val=val, guard=g, vars=vars_, line=self.cur_line))
 
+    def accumulate_mat(self, o, r, c, val):
+        g = self.guard_formula()
+        depth = getattr(o, 'birth', 0)
+        lc = self.loops[depth]
+        ent = lc.pending.setdefault(id(o), (o, []))
+        vars_ = [l.var for l in self.loops[depth:]]
+        rr = self.bounds_check(r, o.nr, 'accumulate (row)')
+        cc = self.bounds_check(c, o.nc, 'accumulate (column)')
+        ent[1].append(dict(kind='acc', cell=('mat', rr, cc), val=val, guard=g, vars=vars_, line=self.cur_line))
+
     def st_For(self, st, frame):
         it = self.ev(st.iter, frame)
         if st.orelse:
@@ -1514,6 +1598,8 @@ class Interp:
             return None
         if type(it).__name__ == 'Columns':
             return list(it.df.cols)
+        if isinstance(it, RowSel):
+            return None
         if isinstance(it, Seg) and it.kind == 'list' and all(not isinstance(s, Family) for s in it.segs):
             out = []
             for s in it.segs:
@@ -1728,6 +1814,11 @@ class Interp:
                 if not (z3.is_true(z3.simplify(n == hi))):
                     self.require('zip-equal-length', n == hi, kind='shape')
             item = tuple(a.f(k) for a in it.arrs)
+        elif isinstance(it, RowSel):
+            # every selected row position once (order immaterial: the body may only accumulate commutatively -- checked below)
+            lo, hi = z3.IntVal(0), lift(it.n if it.parts else 0)
+            item = k
+            rowsel_guard = it.pred(k)
         elif type(it).__name__ == 'SymRows':
             from .libmodel import Row
             df = it.df
@@ -1749,13 +1840,23 @@ class Interp:
         if not self.loops and not self.guards and self.refutes(hi > lo):
             # the range is empty on this path (decided from the path condition and the library axioms): the body never runs
             return
+        if isinstance(it, RowSel):
+            for n_ in ast.walk(ast.Module(body=st.body, type_ignores=[])):
+                if isinstance(n_, (ast.Assign, ast.AnnAssign, ast.Return, ast.Break, ast.Continue, ast.For, ast.While, ast.If)) or \
+                        (isinstance(n_, ast.AugAssign) and not isinstance(n_.op, (ast.Add, ast.Sub))):
+                    raise Unsupported('loop over a list of rows: only commutative += / -= statements are accepted in the body')
         lc = LoopCtx(k, z3.And(k >= lo, k < hi) if not (type(it).__name__ == 'SymRows' and extra_guard is not None)
                      else z3.And(k >= lo, k < hi, extra_guard), st.lineno)
+        if isinstance(it, RowSel):
+            lc.dom = z3.And(k >= lo, k < hi, rowsel_guard)
         # loop-carried names: read before written in the body, and assigned in the body
         carried = loop_carried(st)
         for nm in carried['names']:
             cur = env.get(nm, _MISSING)
             if cur is _MISSING:
+                continue
+            if nm in carried.get('extend_names', ()) and isinstance(cur, list) and not cur:
+                env[nm] = RowSel()
                 continue
             acc = self.make_acc(cur)
             if acc is None:
@@ -1808,7 +1909,7 @@ class Interp:
         assigned = {n.id for n in ast.walk(st) if isinstance(n, ast.Name) and isinstance(n.ctx, ast.Store)}
         for nm in assigned:
             v = env.get(nm, _MISSING)
-            if isinstance(v, Seg):
+            if isinstance(v, (Seg, RowSel)):
                 continue
             if nm in env and (nm not in before_names or not isinstance(v, (Seg,))):
                 if nm in carried['names'] and isinstance(v, Seg):
@@ -1912,7 +2013,7 @@ class Interp:
             for s in solved:
                 f = (lambda r, c, s=s, f=f: ite(s['hit'](r, c), s['val'](r, c), f(r, c)))
             if accs:
-                raise Unsupported('accumulation into matrix')
+                f = self.acc_closure_mat(obj, f, accs)
             obj.f = f
 
     def solve_layer(self, obj, l):
@@ -2022,6 +2123,38 @@ class Interp:
                     sym.SCOPE.pop()
                 term = lift(P(hi)) - lift(P(lo))
                 out = binop('Add', out, z3.substitute(term, (pv, lift(i))))
+            return out
+        return newf
+
+    def acc_closure_mat(self, obj, f, accs):
+        """M[r(k), c(k)] += g(k)  ->  M[i, j] = old[i, j] + sum_k [dom(k) & r(k)=i & c(k)=j] g(k)"""
+        for l in accs:
+            if len(l['vars']) != 1:
+                raise Unsupported('nested accumulation')
+
+        def newf(i, j, f=f):
+            out = f(i, j)
+            for l in accs:
+                k = l['vars'][0]
+                kr, kc = lift(l['cell'][1]), lift(l['cell'][2])
+                val = lift(l['val'])
+                guard = l['guard']
+                lo, hi, rest = loop_bounds(guard, k, with_rest=True)
+                if lo is None or hi is None:
+                    raise Unsupported('accumulation bounds')
+                guard = z3.And(*[z3.simplify(r) for r in rest if not z3.is_true(z3.simplify(r))]) if rest else z3.BoolVal(True)
+                pr, pc_ = z3.Int(fresh_name('cellr')), z3.Int(fresh_name('cellc'))
+                sym.SCOPE.append(pr)
+                sym.SCOPE.append(pc_)
+                try:
+                    P = sym.SUMS.prefix(lambda q, kr=kr, kc=kc, val=val, guard=guard, k=k: ite(
+                        z3.And(z3.substitute(guard, (k, lift(q))), z3.substitute(kr, (k, lift(q))) == pr, z3.substitute(kc, (k, lift(q))) == pc_),
+                        z3.substitute(val, (k, lift(q))), sym._zero_like(val)), self.pc)
+                finally:
+                    sym.SCOPE.pop()
+                    sym.SCOPE.pop()
+                term = lift(P(hi)) - lift(P(lo))
+                out = binop('Add', out, z3.substitute(term, (pr, lift(i)), (pc_, lift(j))))
             return out
         return newf
 
@@ -2669,6 +2802,7 @@ def loop_carried(st):
     assigned_anywhere = set()
     attr_assigned = set()
     append_names, append_attrs = set(), set()
+    extend_names = set()
     for n in ast.walk(st):
         if isinstance(n, ast.Name) and isinstance(n.ctx, ast.Store):
             assigned_anywhere.add(n.id)
@@ -2681,11 +2815,13 @@ def loop_carried(st):
             elif isinstance(t, ast.Attribute) and isinstance(t.value, ast.Name):
                 attr_assigned.add((t.value.id, t.attr))
     for n in ast.walk(st):
-        if isinstance(n, ast.Call) and isinstance(n.func, ast.Attribute) and n.func.attr in ('append',):
+        if isinstance(n, ast.Call) and isinstance(n.func, ast.Attribute) and n.func.attr in ('append', 'extend'):
             tgt = n.func.value
             if isinstance(tgt, ast.Name):
                 assigned_anywhere.add(tgt.id)
                 append_names.add(tgt.id)
+                if n.func.attr == 'extend':
+                    extend_names.add(tgt.id)
             elif isinstance(tgt, ast.Attribute) and isinstance(tgt.value, ast.Name):
                 attr_assigned.add((tgt.value.id, tgt.attr))
                 append_attrs.add((tgt.value.id, tgt.attr))
@@ -2751,4 +2887,4 @@ def loop_carried(st):
                     if isinstance(ch, ast.expr):
                         visit_expr(ch, defined_now)
     visit_block(st.body, set(defined))
-    return dict(names=carried | append_names, attrs=carried_attrs | append_attrs)
+    return dict(names=carried | append_names, attrs=carried_attrs | append_attrs, extend_names=extend_names)
